@@ -58,8 +58,9 @@ theorem nextStepPrio_not_sent (o : Outbound) (b : Bool) (s : Outbound.Step) (h :
         exact Bool.false_ne_true this
       | none => rw [ht] at h; simp at h
 
-/-- **Nothing is sent twice within a connection.** The scheduler never returns an entry whose
-state is `sent`. -/
+/-- The scheduler never returns an entry whose state is `sent` (the local half of "nothing is sent
+twice within a connection"; the statement about the wire is `C02_at_most_once_on_every_connection` and
+`C16Q_nothing_sent_twice`). -/
 theorem C16_sent_never_rescheduled (o : Outbound) (s : Outbound.Step) (h : o.nextStep = some s) : s.state ≠ .sent := by
   unfold nextStep at h
   cases h1 : o.nextStepPrio true with
@@ -141,8 +142,9 @@ theorem C16_quiescent_iff (o : Outbound) :
   · intro ⟨⟨a, b⟩, c⟩; exact ⟨a, b, c⟩
   · intro ⟨a, b, c⟩; exact ⟨⟨a, b⟩, c⟩
 
-/-- **Replay.** `arm_replay` makes every pending entry fresh (to be sent exactly once more), and is
-called only when a connection ends or begins. -/
+/-- **Replay.** `arm_replay` makes every pending entry fresh (state `write 0`). (That it runs only when a
+connection ends or begins is a fact about its call sites — `handle_disconnect`, `connect` — visible in
+`SessOps.lean`, not part of this statement.) -/
 theorem C16_replay_makes_fresh_once (o : Outbound) (h : o.hasPendingState = true) :
     (∀ e ∈ o.armReplay.retained, e.state = .write 0) ∧ (∀ e ∈ o.armReplay.release, e.state = .write 0) ∧
     (∀ e ∈ o.armReplay.control, e.state = .write 0) := by
